@@ -297,8 +297,10 @@ impl Div for Ap {
 		let qs = [a / c, a / d, b / c, b / d];
 		let lo = qs.iter().cloned().fold(f64::INFINITY, f64::min);
 		let hi = qs.iter().cloned().fold(f64::NEG_INFINITY, f64::max);
-		let r = Ap::from_interval(lo, hi);
-		r.widen(rnd(r.v))
+		// midpoint = the point quotient (best estimate), radius covers the whole interval
+		let v = self.v / o.v;
+		let e = (hi - v).max(v - lo).max(0.0);
+		Ap::new(v, e + 2.0 * rnd(v))
 	}
 }
 impl Add<f64> for Ap {
